@@ -608,8 +608,11 @@ class SemanticErrorChecker:
                     struct_def = self.structs[correct_attribute_type]
                     struct_correct = True
                     for identifier in attribute.attributes:
-                        if not self.check_for_wrong_attribute_type_in_struct(
-                            attribute, identifier, struct_def
+                        if not (
+                            self.check_for_unknown_attribute_in_struct(attribute, identifier, struct_def)
+                            and self.check_for_wrong_attribute_type_in_struct(
+                                attribute, identifier, struct_def
+                            )
                         ):
                             struct_correct = False
                     return struct_correct
